@@ -76,10 +76,11 @@ fn get_enum_dependencies(
                 for variant in &shared.variants {
                     match variant {
                         RustEnumVariant::Unit(_) => {}
-                        RustEnumVariant::AnonymousStruct {
-                            fields: _,
-                            shared: _,
-                        } => {}
+                        RustEnumVariant::AnonymousStruct { fields, shared: _ } => {
+                            for field in fields {
+                                get_dependencies_from_type(&field.ty, types, res, seen)
+                            }
+                        }
                         RustEnumVariant::Tuple { ty, shared: _ } => {
                             get_dependencies_from_type(ty, types, res, seen)
                         }
